@@ -24,6 +24,51 @@ type silSetFacts struct {
 	createPathReach  *Reached
 }
 
+// clockReadingOf: the call of nowUTC a time value comes from (through timestamppb.New), nil when it is not one
+// single reading.
+func clockReadingOf(v ssa.Value) *ssa.Call {
+	for k := 0; k < 3; k++ {
+		c, ok := v.(*ssa.Call)
+		if !ok {
+			return nil
+		}
+		switch calleeName(&c.Call) {
+		case "(*am/silence.Silences).nowUTC":
+			return c
+		case "google.golang.org/protobuf/types/known/timestamppb.New", "timestamppb.New":
+			if len(c.Call.Args) != 1 {
+				return nil
+			}
+			v = c.Call.Args[0]
+		default:
+			return nil
+		}
+	}
+	return nil
+}
+
+// oneClockRule: the instant a write is stamped with is the reading its admission was decided at.  An edit that was
+// judged against an older reading (taken before waiting for the lock) and stamped with a newer one passes merge's
+// "newer wins" although the stored silence changed in between: an expired silence comes back under its id.  A stamp
+// that is the decision's reading, or an earlier one, is dropped by merge in that case.
+func oneClockRule(o *Ob, fn *ssa.Function, decision ssa.CallInstruction, argIdx int, stamps []*ssa.Store, what string) {
+	if decision == nil || argIdx >= len(decision.Common().Args) {
+		return
+	}
+	rd := clockReadingOf(decision.Common().Args[argIdx])
+	if rd == nil {
+		return
+	}
+	o.Site(rd, what+": clock reading the decision is taken at")
+	for _, st := range stamps {
+		rs := clockReadingOf(st.Val)
+		if rs == nil || rs == rd {
+			continue
+		}
+		o.Check(InstrDominates(rs, rd), "one-clock|"+what, what+": the write is stamped with a clock reading taken after the one its admission was decided at (an edit decided against an older view of the store then overrides what was stored meanwhile, e.g. revives a silence expired in between)", st)
+	}
+}
+
 func resolveSilSet(o *Ob) *silSetFacts {
 	e := o.E
 	f := &silSetFacts{}
@@ -74,7 +119,7 @@ func init() {
 		NotDecided:  "retention timing over wall-clock time; interleavings with GC beyond the lock discipline (C02.4).",
 	}
 
-	reg("C12", "C12.1", "T1,T2,T7", "Silences.Set: validate first; unknown id rejected; in place iff found ∧ canUpdate; fresh id, start ≥ now, UpdatedAt=now; previous expired iff found ∧ not expired; no rejecting exit after a mutation", func(o *Ob) {
+	reg("C12", "C12.1", "T1,T2,T7", "Silences.Set: validate first; unknown id rejected; in place iff found ∧ canUpdate; fresh id, start ≥ now, UpdatedAt=now (the reading the edit was admitted at, not a later one); previous expired iff found ∧ not expired; no rejecting exit after a mutation", func(o *Ob) {
 		e := o.E
 		f := resolveSilSet(o)
 		fn := f.fn
@@ -172,6 +217,9 @@ func init() {
 				// past ⇒ raised before the create store
 				r := (&Walk{Fn: fn, Cut: e.CutContradicting(past), Barrier: IsInstr(raises...)}).FromEntry()
 				o.Check(hasAny(r, f.creSets) == nil, "start-raise-forced", "a silence starting in the past can be created without raising its start", f.creSets[0])
+			}
+			for _, cu := range e.Calls(fn, "am/silence.canUpdate") {
+				oneClockRule(o, fn, cu, 2, e.StoresTo(fn, "p1.UpdatedAt"), "Set")
 			}
 			for _, sc := range f.setCalls {
 				o.Precedes(sc, "updatedat", "UpdatedAt must be set to now before the silence is stored", func(in ssa.Instruction) bool {
@@ -293,7 +341,7 @@ func init() {
 		o.MinSites(7)
 	})
 
-	reg("C12", "C12.3", "T6,T1", "expire: unknown id → ErrNotFound; expired → nil, nothing written; active → EndsAt=now; pending → StartsAt=EndsAt=now; UpdatedAt=now; writes go to a clone only", func(o *Ob) {
+	reg("C12", "C12.3", "T6,T1", "expire: unknown id → ErrNotFound; expired → nil, nothing written; active → EndsAt=now; pending → StartsAt=EndsAt=now; UpdatedAt=now (the reading the state was judged at); writes go to a clone only", func(o *Ob) {
 		e := o.E
 		fn := o.Fn("(*am/silence.Silences).expire")
 		get := o.One(e.Calls(fn, "(*am/silence.Silences).getSilence"), "get", "expire must look the id up", fn)
@@ -337,6 +385,17 @@ func init() {
 					o.Site(in, "field write "+e.X(fn, s.Addr))
 					o.Check(strings.HasPrefix(e.X(fn, s.Addr), clone+"."), "write-to-stored", "expire writes "+e.X(fn, s.Addr)+": the stored silence must not be modified in place (history is immutable)", in)
 				}
+			}
+		}
+		{
+			var stamps []*ssa.Store
+			for _, in := range AllInstrs(fn) {
+				if s, ok := in.(*ssa.Store); ok && strings.HasPrefix(e.X(fn, s.Addr), clone+".") {
+					stamps = append(stamps, s)
+				}
+			}
+			for _, gs := range e.Calls(fn, "am/silence.getState") {
+				oneClockRule(o, fn, gs, 1, stamps, "expire")
 			}
 		}
 		sc := o.One(e.Calls(fn, "(*am/silence.Silences).setSilence"), "set", "expire must store through setSilence", fn)
